@@ -69,7 +69,11 @@ var pipeHosts = map[string]string{
 	"mapped4": "[::ffff:127.0.0.1]", "mapped4hex": "[::ffff:7f00:1]",
 	"mappedUnspec": "[::ffff:0.0.0.0]", "mappedUnspecHex": "[::ffff:0:0]", "mappedUnspecLong": "[0:0:0:0:0:ffff:0:0]",
 	"lo6zone": "[::1%25lo]", "lhDot": "localhost.",
+	"lhWide": "\uff4c\uff4f\uff43\uff41\uff4c\uff48\uff4f\uff53\uff54", "lo4Ideo": "127\u30020\u30020\u30021",
 }
+
+// pipeDialed: the spelling under which a host is dialled when it is not the one the client used.
+var pipeDialed = map[string]string{"lhWide": "localhost", "lo4Ideo": "127.0.0.1"}
 
 func localhostAlias() string {
 	f, err := os.Open("/etc/hosts")
@@ -368,6 +372,9 @@ func newPipeEnv(fc fwdCfg, alias string) (*pipeEnv, error) {
 	pe := &pipeEnv{log: &hitLog{}, alias: alias}
 	var names []string
 	for _, h := range pipeHosts {
+		if strings.IndexFunc(h, func(r rune) bool { return r > 0x7f }) >= 0 {
+			continue // not a name a certificate can carry
+		}
 		names = append(names, strings.Trim(h, "[]"))
 	}
 	if alias != "" {
@@ -762,6 +769,9 @@ func (pe *pipeEnv) runCase(c *pipeCase) map[string]any {
 		}
 		sh, sp := pipeSelf(c, strings.Trim(host, "[]"))
 		sh = strings.ReplaceAll(sh, "%25", "%") // the zone is percent-encoded in a URL only
+		if d, ok := pipeDialed[c.Req.Host]; ok && sh == host {
+			sh = d
+		}
 		wantDial := net.JoinHostPort(sh, sp)
 		switch c.Out.Dial {
 		case "R":
